@@ -260,7 +260,7 @@ MUTANTS += [
       'minpreflistlength, maxpreflistlength + 1)', 'minpreflistlength, max(minpreflistlength + 1, maxpreflistlength))'),
     m('gen_quota_remainder_last', ['C08'], GSH, '        if i < remainder:', '        if i >= n - remainder:'),
     m('gen_with_replacement', ['C08'], GSH, 'replace=False, ', 'replace=(length_plist > 6), '),
-    m('gen_hosp_numbering', ['C08', 'C09'], GHR, '            hospital_num = x + 1', '            hospital_num = x + 1 if n2 < 7 else x'),
+    m('gen_hosp_numbering', ['C08'], GHR, '            hospital_num = x + 1', '            hospital_num = x + 1 if n2 < 7 else x'),
     m('gen_ties_wrong_side', ['C08'], GHR, 'pref_lists_res, args.n2, args.ties2)', 'pref_lists_res, args.n2, args.ties1)'),
     m('gen_spa_lecturer_lines_missing_uq', ['C08', 'C09'], GSPA,
       '''str(lec_lower_quotas[z]) + ": " + str(lec_targets[z]) + ": " + 
